@@ -47,7 +47,7 @@ pub fn canon_key(m: &Model, stale: &Stale) -> String {
     let mut qs: Vec<(&u32, &U)> = m.intro_queries.iter().collect();
     qs.sort_by_key(|(t, tid)| (**tid, **t));
     for (i, (t, _)) in qs.iter().enumerate() {
-        sren.insert(**t, sym::bserial(500 + i as u32));
+        sren.insert(**t, sym::qserial(i as u32));
     }
     if let Some(t) = stale.bserial {
         sren.entry(t).or_insert(sym::bserial(1000));
@@ -100,6 +100,7 @@ pub fn canon_key(m: &Model, stale: &Stale) -> String {
     for (t, tid) in &m.intro_queries {
         out.intro_queries.insert(rs(t), *tid);
     }
+    out.next_qserial = 0;
     out.broker_shutdown = m.broker_shutdown;
     out.broker_idle_requested = m.broker_idle_requested;
     let stale2 = Stale {
